@@ -110,6 +110,8 @@ func reportGated(c *vf.Ctx, r gatedResult) {
 func reportGroup(c *vf.Ctx, r groupResult) {
 	c.Count("evaluations", 1)
 	c.Count("group_scenarios", 1)
+	c.Count("group_observer_subscribes", r.ObsSubs)
+	c.Count("group_observer_unsubscribes", r.ObsUnsubs)
 	if r.Cfg.Idx%2 == 1 {
 		c.Count("group_scenarios_concurrent_creation", 1)
 	}
@@ -581,6 +583,7 @@ func run(c *vf.Ctx) {
 	c.Require("window:"+ptBeforePush, 50)
 	c.Require("window:"+ptBeforeWait, 50)
 	c.Require("group_wait_parked_observations", 500)
+	c.Require("group_observer_unsubscribes", c.Pick(1500, 30000))
 	c.Require("group_scenarios_concurrent_creation", c.Pick(500, 10000))
 	c.Require("stress_runs_submit_overlapping_shutdown", c.Pick(300, 15000))
 	c.Require("stress_runs_race_build", c.Pick(300, 9000))
